@@ -327,6 +327,7 @@ PROPS["C03"] = {
         H(_H, "c03_key_material_auth_binds_key_and_session", "key-material auth Ok iff exporter(context = claimed key) suffix matches and the oracle accepts (claimed key, first 16 bytes of that material, client signature)", "all symbolic", timeout=900, stub_env=True, stubs=["verify"]),
         H(_H, "c03_challenge_auth_binds_key_and_challenge", "challenge auth Ok iff the oracle accepts (claimed key, derive_key(domain, this challenge), client signature)", "all symbolic", timeout=900, stub_env=True, stubs=["verify", "derive_key"]),
         H(_H, "c03_client_auth_frame_decoding", "the ClientAuth frame decodes to exactly the key and signature bytes sent; only valid points accepted", "all 97-byte bodies", timeout=900),
+        H(_H, "c03_key_material_header_decoding", "the key-material header body decodes to exactly the key, signature and suffix sent; only valid points accepted", "all 113-byte bodies", timeout=1800, tier="thorough"),
         W(_H, "c03_witness"),
     ],
 }
